@@ -9,6 +9,7 @@ import (
 	ckkspoly "github.com/tuneinsight/lattigo/v6/circuits/ckks/polynomial"
 	"github.com/tuneinsight/lattigo/v6/core/rlwe"
 	"github.com/tuneinsight/lattigo/v6/schemes/ckks"
+	"github.com/tuneinsight/lattigo/v6/utils/bignum"
 
 	"verif/engine"
 	"verif/lib/circ"
@@ -155,6 +156,8 @@ func mod1Scenarios(tier string) []engine.Scenario {
 				scs = append(scs, engine.Scenario{Name: name, Bound: -1, Fn: func(c *engine.Chooser) { mod1Leaf(c, name, spec, li, first) }})
 			}
 		}
+		name := fmt.Sprintf("mod1/%s/ignored-fields", spec.String())
+		scs = append(scs, engine.Scenario{Name: name, Bound: -1, Fn: func(c *engine.Chooser) { mod1IgnoredFieldLeaf(c, name, spec) }})
 	}
 	return scs
 }
@@ -309,4 +312,82 @@ func mod1Leaf(c *engine.Chooser, scName string, spec circ.CKKSSpec, li, first in
 		c.Count(len(x))
 	}
 	c.Outcome("mod1", desc)
+}
+
+// mod1IgnoredFieldLeaf: "DoubleAngle: Number of rescale and double angle formula (only applies for cos and is ignored if sin
+// is used)". A SinContinuous literal with DoubleAngle in {1,2,3} must therefore behave exactly like the same literal with
+// DoubleAngle 0: same Parameters (normalised DoubleAngle, Sqrt2Pi, K, QDiff, polynomials), same Depth(), and - evaluation being
+// deterministic - the SAME output ciphertext on the same input.
+func mod1IgnoredFieldLeaf(c *engine.Chooser, scName string, spec circ.CKKSSpec) {
+	w := getMod1World(c, spec)
+	p := w.Params
+	da := 1 + c.ChooseFree(3, "DoubleAngle")
+	arcsine := c.ChooseFree(2, "arcsine") == 1
+	op := mod1Ops[c.ChooseFree(len(mod1Ops), "op")]
+	lit0 := mod1.ParametersLiteral{LevelQ: p.MaxLevel(), Mod1Type: mod1.SinContinuous, LogMessageRatio: 8, K: 6, Mod1Degree: 63, LogScale: 60}
+	if arcsine {
+		lit0.Mod1InvDegree = 7
+	}
+	lit1 := lit0
+	lit1.DoubleAngle = da
+	desc := fmt.Sprintf("SinContinuous DoubleAngle=%d arcsine=%v %s", da, arcsine, op.name)
+	c.Note("%s", desc)
+	c.Cover("mod1", "ignored-field/DoubleAngle-with-sin")
+	sig := "C13/composite/mod1/ignored-DoubleAngle"
+	uni.Seed(c, scName, desc)
+	if lit0.Depth() != lit1.Depth() {
+		c.Fail(sig+"/depth", "%s: ParametersLiteral.Depth() = %d, with DoubleAngle 0: %d", desc, lit1.Depth(), lit0.Depth())
+	}
+	pm0, err0 := mod1.NewParametersFromLiteral(p, lit0)
+	pm1, err1 := mod1.NewParametersFromLiteral(p, lit1)
+	if err0 != nil || err1 != nil {
+		c.Fail(sig+"/error", "%s: NewParametersFromLiteral: %v / %v", desc, err0, err1)
+		return
+	}
+	same := pm0.DoubleAngle == pm1.DoubleAngle && pm0.Sqrt2Pi == pm1.Sqrt2Pi && pm0.K == pm1.K && pm0.QDiff == pm1.QDiff &&
+		pm0.LevelQ == pm1.LevelQ && pm0.LogMessageRatio == pm1.LogMessageRatio && pm0.Mod1Type == pm1.Mod1Type &&
+		diffPolys(snapshotPolys([]bignum.Polynomial{pm0.Mod1Poly}), snapshotPolys([]bignum.Polynomial{pm1.Mod1Poly})) == ""
+	if same && arcsine {
+		same = pm0.Mod1InvPoly != nil && pm1.Mod1InvPoly != nil &&
+			diffPolys(snapshotPolys([]bignum.Polynomial{*pm0.Mod1InvPoly}), snapshotPolys([]bignum.Polynomial{*pm1.Mod1InvPoly})) == ""
+	}
+	if !same {
+		c.Fail(sig+"/parameters-differ", "%s: Parameters differ from those of DoubleAngle 0: DoubleAngle %d vs %d, Sqrt2Pi %v vs %v", desc, pm1.DoubleAngle, pm0.DoubleAngle, pm1.Sqrt2Pi, pm0.Sqrt2Pi)
+	}
+	// same input, fresh evaluators
+	x := mod1Grid(pm0.K, lit0.LogMessageRatio, w.slots)
+	u := make([]complex128, len(x))
+	for j := range x {
+		u[j] = complex(x[j]/pm0.K, 0)
+	}
+	ct := w.Encrypt(u, p.LogMaxSlots(), lit0.LevelQ, pm0.ScalingFactor())
+	run := func(pm mod1.Parameters) (out *rlwe.Ciphertext, err error, pan interface{}) {
+		ev := w.tmpl.ShallowCopy()
+		me := mod1.NewEvaluator(ev, ckkspoly.NewEvaluator(p, ev), pm)
+		_, pan = uni.Try(func() error {
+			if op.scaled {
+				out, err = me.EvaluateAndScaleNew(ct.CopyNew(), complex(op.scaling, 0))
+			} else {
+				out, err = me.EvaluateNew(ct.CopyNew())
+			}
+			return nil
+		})
+		return
+	}
+	o0, e0, p0 := run(pm0)
+	o1, e1, p1 := run(pm1)
+	switch {
+	case p0 != nil || e0 != nil:
+		c.Fail(sig+"/baseline", "%s: DoubleAngle 0 itself failed: %v %v", desc, e0, p0)
+	case p1 != nil:
+		c.Fail(sig+"/panic", "%s: panic: %v", desc, p1)
+	case e1 != nil:
+		c.Fail(sig+"/error", "%s: %v", desc, e1)
+	case o1.Level() != lit1.LevelQ-lit1.Depth():
+		c.Fail(sig+"/levels-consumed", "%s: output level %d, LevelQ - Depth() = %d", desc, o1.Level(), lit1.LevelQ-lit1.Depth())
+	case !o1.Equal(o0):
+		c.Fail(sig+"/result-differs", "%s: result differs from the one with DoubleAngle 0", desc)
+	}
+	c.Outcome("mod1-ignored", desc)
+	c.Count(len(x))
 }
